@@ -49,10 +49,11 @@ res['demo_without_change'] = {'exit': rc2, 'tail': o2[-300:]}
 # 3. checks
 for c in checks:
     t0 = time.time()
-    rc, o = sh('./check %s' % c, cwd='/verif', env={'VERIF_REPO': wt, 'VERIF_WORK': '/verif/work_seed', 'VERIF_EVIDENCE_DIR': '/verif/work_seed/evidence', 'VERIF_REPLAY_DIR': '/verif/work_seed/replay'})
+    rc, o = sh('./check %s' % c, cwd='/verif', env={'VERIF_REPO': wt, 'VERIF_WORK': '/verif/work_seed', 'VERIF_TARGET': '/verif/work_seed/target', 'VERIF_EVIDENCE_DIR': '/verif/work_seed/evidence', 'VERIF_REPLAY_DIR': '/verif/work_seed/replay'})
     lines = [l for l in o.splitlines() if l.startswith('VIOLATION') or l.startswith('KNOWN') or l.startswith(c + ':')]
     res['checks'][c] = {'exit': rc, 'violation_lines': len([l for l in lines if l.startswith('VIOLATION')]), 'first': [l[:260] for l in lines[:3]], 'summary': lines[-1] if lines else o[-300:], 'wall_s': round(time.time() - t0)}
 shutil.rmtree(demo, ignore_errors=True)
+shutil.rmtree('/verif/work_seed', ignore_errors=True)
 sh('git -C /repo worktree remove --force %s' % wt)
 print(json.dumps(res, indent=1))
 os.makedirs('/verif/work/seedres', exist_ok=True)
